@@ -2,4 +2,4 @@
 # usage: tools/seed_regress.sh [parallelism]  — run the quick tier of the owning check against every stored seeded change;
 # prints one line per change: "<dir> rc=<exit> <first violated clause>"; a change is caught iff rc=1.
 cd /verif
-ls seeded | xargs -P "${1:-4}" -I{} sh -c 'id=$(echo {} | cut -c1-3); out=$(tools/seedtest.sh seeded/{}/patch.diff $id 2>&1); rc=$(echo "$out" | grep -o "rc=[0-9]*" | tail -1); cl=$(echo "$out" | grep -m1 "violated clause" | cut -c1-90); echo "{} $rc $cl $(echo "$out" | grep -m1 "DOES NOT APPLY")"'
+ls seeded | xargs -P "${1:-4}" -I{} sh -c 'id=$(echo {} | cut -c1-3); out=$(tools/seedtest.sh /verif/seeded/{}/patch.diff $id 2>&1); rc=$(echo "$out" | grep -o "rc=[0-9]*" | tail -1); cl=$(echo "$out" | grep -m1 "violated clause" | cut -c1-90); echo "{} $rc $cl $(echo "$out" | grep -m1 "DOES NOT APPLY")"'
